@@ -50,7 +50,7 @@ func init() {
 func genCases(seed int64, tier string) []core.Case {
 	nh := 10
 	if tier == "thorough" {
-		nh = 60
+		nh = 150
 	}
 	var out []core.Case
 	rng := rand.New(rand.NewSource(seed*7919 + 1))
